@@ -144,7 +144,7 @@ SUBCHECKS = {
         rule="case = (GCC shape, ladder, iso|glide, contribution); non-trivial = a lower-grade level receives a duty strictly between 0 and the target",
         cases=U.cases, run=table_run,
         requires=("OpenPinch.analysis.gcc_manipulation:get_additional_GCCs", "OpenPinch.analysis.utility_targeting:get_utility_targets"),
-        bound=lambda t: "{0..3}^n n<=5, ladders <=2 levels, isothermal / gliding / mixed" if t == "quick" else "{0..3}^n n<=6, ladders <=3 levels (<=4 levels for n<=4), isothermal / gliding / mixed, two contributions",
+        bound=lambda t: "{0..3}^n n<=5, ladders <=2 levels, isothermal / gliding / mixed" if t == "quick" else "{0..3}^n n<=6, ladders <=3 levels, isothermal / gliding / mixed, two contributions",
     ),
     "service": SubCheck(
         name="service",
